@@ -63,10 +63,13 @@ pub fn c16(tier: &str, seed: u64) -> Vec<Case> {
             if let Ok(plain) = p.build_bytes_vec() {
                 if let Some(w) = crate::walker::walk(&plain) {
                     let e = &w.sections[0][0];
-                    let letters: Vec<usize> = (e.rd_start..e.next()).filter(|i| plain[*i].is_ascii_alphabetic()).collect();
+                    // (the owner name's octets too: a letter in another case is the same name, any other change another one)
+                    let owner_end = 12 + simple_dns::verif::name_len(&built.name);
+                    let letters: Vec<usize> = (12..owner_end.saturating_sub(1)).chain(e.rd_start..e.next()).filter(|i| plain[*i].is_ascii_alphabetic()).collect();
                     let mut tries: Vec<(usize, u8)> = vec![];
                     if !letters.is_empty() { for _ in 0..2 { tries.push((*g.rng.pick(&letters), 0x20)); } }
                     if e.next() > e.rd_start { tries.push((e.rd_start + g.rng.below((e.next() - e.rd_start) as u64) as usize, 1 << g.rng.below(8))); }
+                    if owner_end > 14 { tries.push((13 + g.rng.below((owner_end - 14) as u64) as usize, 1 << g.rng.below(8))); }
                     for (at, bit) in tries {
                         let mut m = plain.clone();
                         m[at] ^= bit;
@@ -237,7 +240,7 @@ pub fn c16(tier: &str, seed: u64) -> Vec<Case> {
         let ports: Vec<u16> = (0..r.below(5)).map(|_| 8000 + r.below(6) as u16).collect();
         // names that need no escaping, and names that differ only by it (`a.b`, `a\.b`, `a\\.b`): equality and
         // hashing look at the stored name in the same way
-        let name = match r.below(8) { 0 => "a.b".to_string(), 1 => "a\\.b".to_string(), 2 => "a\\\\.b".to_string(), 3 => "a\\b".to_string(), _ => format!("inst{}", r.below(3)) };
+        let name = match r.below(10) { 0 => "a.b".to_string(), 1 => "a\\.b".to_string(), 2 => "a\\\\.b".to_string(), 3 => "a\\b".to_string(), 8 => "Inst0".to_string(), 9 => "Büro Drucker".to_string(), _ => format!("inst{}", r.below(3)) };
         // the same attribute map inserted in ascending and in descending key order
         let nattr = *r.pick(&[0usize, 1, 2, 5, 16]);
         let attrs: Vec<(String, Option<String>)> = (0..nattr).map(|k| (format!("key{}", k), if k % 3 == 0 { None } else { Some(format!("v{}", k)) })).collect();
@@ -248,8 +251,29 @@ pub fn c16(tier: &str, seed: u64) -> Vec<Case> {
         let (mut ips2, mut ports2) = (ips.clone(), ports.clone());
         ips2.reverse(); ports2.rotate_left(ports.len().min(1));
         if r.chance(1, 4) { ports2.push(9); }
-        let name2 = if r.chance(1, 8) { "other".to_string() } else if name.starts_with('a') && r.chance(1, 2) { r.pick(&["a.b", "a\\.b", "a\\\\.b", "a\\b"]).to_string() } else { name.clone() };
+        // ... or only in the case of a letter, or by a trailing space: other names (instance names are compared as they are)
+        let name2 = if r.chance(1, 8) { "other".to_string() } else if name.starts_with('a') && r.chance(1, 2) { r.pick(&["a.b", "a\\.b", "a\\\\.b", "a\\b"]).to_string() }
+            else if r.chance(1, 5) { match r.below(4) { 0 => name.to_uppercase(), 1 => name.to_lowercase(), 2 => format!("{} ", name), _ => { let mut cs: Vec<char> = name.chars().collect(); if let Some(c0) = cs.first_mut() { *c0 = if c0.is_uppercase() { c0.to_ascii_lowercase() } else { c0.to_ascii_uppercase() }; } cs.into_iter().collect() } } }
+            else { name.clone() };
         let b = mk_rev(&ips2, &ports2, &name2);
+        // a third instance: the same name and members, one attribute key or value in another case (another map)
+        if nattr > 0 && r.chance(1, 3) {
+            let which = r.below(nattr as u64) as usize;
+            let mut i3 = mk0(&ips, &ports, &name);
+            let mut changed = false;
+            for (k, (key, val)) in attrs.iter().enumerate() {
+                if k == which { if val.is_some() && r.chance(1, 2) { i3 = i3.with_attribute(key.clone(), val.as_ref().map(|x| x.to_uppercase())); } else { i3 = i3.with_attribute(key.to_uppercase(), val.clone()); } changed = true; }
+                else { i3 = i3.with_attribute(key.clone(), val.clone()); }
+            }
+            let (eq3, heq3) = (a == i3, h(&a) == h(&i3));
+            let mut c3 = Case::oracle_only().tag("hash.inst-attr-case");
+            if changed && eq3 { c3 = c3.fail("eq-hash-instance", "instances whose attribute maps differ in the case of a key or value compare equal".into()); }
+            if eq3 && !heq3 { c3 = c3.fail("eq-hash-instance", "equal instance information hashes differently".into()); }
+            let mut set3 = HashSet::new();
+            set3.insert(a.clone());
+            if eq3 != set3.contains(&i3) { c3 = c3.fail("hashset-lookup-instance", "".into()); }
+            v.push(c3);
+        }
         let (eq, heq) = (a == b, h(&a) == h(&b));
         let show = |i: &InstanceInformation, nm: &str| {
             let mut s = text::hex(nm.as_bytes());
